@@ -34,3 +34,10 @@ package tls
 //@   ensures [fresh-info] old(hs.cachedClientHelloInfo) == nil ==> result.Version == hs.clientHello.vers && result.CipherSuites == hs.clientHello.cipherSuites && result.Extensions == hs.clientHello.extensions && result.SupportedCurves == hs.clientHello.supportedCurves && result.SupportedPoints == hs.clientHello.supportedPoints && result.ServerName == hs.clientHello.serverName
 //@   ensures [cached] old(hs.cachedClientHelloInfo) != nil ==> result == old(hs.cachedClientHelloInfo)
 //@   modifies hs.cachedClientHelloInfo
+//
+// ClientHello parsing: the extension loop records the type of EVERY extension it passes, in wire order
+// and including repeated types (JA3 lists them as sent): after k iterations k types are recorded.
+// loopiter is the checker's ghost count of completed iterations.
+//@ func (*clientHelloMsg).unmarshal
+//@   modifies *
+//@   loop 1: invariant len(extensions) == loopiter
